@@ -73,6 +73,17 @@ func (r faultReaderAt) ReadAt(p []byte, off int64) (int, error) {
 		if r.fc.kind == "eof0" {
 			return 0, io.EOF
 		}
+		// outside the io.ReaderAt contract, but the kind of fault the property names: a short count without an error
+		if r.fc.kind == "short-nil" {
+			if len(p) <= 1 {
+				return 0, nil
+			}
+			n, _ := r.inner.ReadAt(p[:len(p)-1], off)
+			return n, nil
+		}
+		if r.fc.kind == "zero-nil" {
+			return 0, nil
+		}
 		return 0, errInjected
 	}
 	return r.inner.ReadAt(p, off)
@@ -282,7 +293,7 @@ func c15Eval(c *Ctx, cs Case) {
 	if dep == "fs" {
 		kinds = []string{"error", "short1", "short0"}
 	} else if dep == "reader" {
-		kinds = []string{"error", "short"}
+		kinds = []string{"error", "short", "short-nil", "zero-nil"}
 		if op != "parse-image" {
 			// after Parse the sizes are known: a reader that ends early is a failure, not a shorter file
 			kinds = append(kinds, "short-eof", "eof0")
@@ -315,7 +326,7 @@ func c15Eval(c *Ctx, cs Case) {
 			// correspondence with the Lean model of the streamed digest under a failing reader
 			// (Model/MultiFault.lean): same outcome class, and the same digest when there is one
 			if op == "hash-image" && dep == "reader" {
-				ki := map[string]int{"error": 0, "short": 1, "short-eof": 2, "eof0": 3}[kind]
+				ki := map[string]int{"error": 0, "short": 1, "short-eof": 2, "eof0": 3, "short-nil": 4, "zero-nil": 5}[kind]
 				m := c.Drv.Ask("pe.hashfault", cs.S("img"), "fault", fmt.Sprint(k), fmt.Sprint(ki))
 				goCls := "nil"
 				switch {
@@ -335,6 +346,12 @@ func c15Eval(c *Ctx, cs Case) {
 			}
 			// a short count is only a fault for the call that moves data
 			if (kind == "short1" || kind == "short0") && !faultBites(c, a, k) {
+				continue
+			}
+			if (kind == "short-nil" || kind == "zero-nil") && result == strings.SplitN(clean.Out, " ", 2)[0] && field(res.Out, "state") == field(clean.Out, "state") {
+				// a short count without an error is no failure for a sequential read (io.ReadFull and io.Copy ask again):
+				// what counts is that nothing wrong comes back. Equal to the clean run: the data were delivered after all.
+				c.Count(fmt.Sprintf("%s|%d|%s|benign", cs.Key(), k, kind), false, "fault/"+op+"/reader/"+kind+"/benign-retried")
 				continue
 			}
 			if result != "err" && op == "parse-image" && kind == "short" && field(res.Out, "state") == field(clean.Out, "state") {
